@@ -142,6 +142,10 @@ class Session:
         self.events: list[tuple] = []  # decoded, in order
         self.decoded = 0
         self.notifications: list[tuple] = []
+        self.fams: set[int] = set()  # families of the neighbor definition the session was opened with
+        self.yield_in_read = False  # make read_message a suspension point (a peer waiting for its socket)
+        self.in_read = False
+        self.gate: Any = None
 
 
 class ReloadRig:
@@ -175,6 +179,7 @@ class ReloadRig:
         self.sessions: dict[str, list[Session]] = {}  # neighbor name (real) -> sessions, in order
         self.nlri_by_text = {v: k for k, v in ribrig.NLRIS.items()}
         self.key_of = {ADDR[k]: k for k in ADDR}
+        self._names: dict[int, str] = {}
 
     def close(self) -> None:
         try:
@@ -198,8 +203,9 @@ class ReloadRig:
     def real_name(self, a: int) -> str | None:
         for k in list(self.reactor._peers) + list(self.cfg.neighbors) + list(RIB._cache):
             if k.split(' ')[1:2] == [ADDR[a]]:
+                self._names[a] = k
                 return k
-        return None
+        return self._names.get(a)  # a neighbor that existed and was removed
 
     def peer(self, a: int) -> Any:
         k = self.real_name(a)
@@ -217,13 +223,13 @@ class ReloadRig:
 
     def reload(self) -> bool:
         """The real Reactor.reload(), then what the reactor's main loop does with peers that were removed."""
+        for a in ADDR:
+            self.real_name(a)
         ok = bool(self.reactor.reload())
         for key, peer in list(self.reactor._peers.items()):
             if not peer._restart:
-                # removed: its task ends (NOTIFICATION 6/3 if established), then the reactor drops it
-                for s in self.sessions.get(key, []):
-                    if s.task is not None and not s.task.done():
-                        self.loop.run_until_complete(asyncio.wait_for(s.task, 5))
+                # removed: the reactor drops it when its task has ended (NOTIFICATION 6/3 if it was
+                # established); the task itself keeps running in `sessions` until the next settle()
                 del self.reactor._peers[key]
         return ok
 
@@ -249,6 +255,7 @@ class ReloadRig:
 
         async def fake_establish() -> None:
             neighbor = peer.neighbor
+            sess.fams = {ribrig.FAM_ID[f] for f in neighbor.families() if f in ribrig.FAM_ID}
             neg = self._negotiate(neighbor, Direction.OUT)
             sess.neg_in = self._negotiate(neighbor, Direction.IN)
             proto = Protocol(peer)
@@ -263,8 +270,15 @@ class ReloadRig:
             sess.conn.writer_async = writer  # type: ignore[method-assign]
 
             async def read_message() -> Any:
+                # a silent remote peer.  Without `yield_in_read` this is not a suspension point, so that an
+                # idle peer can only be suspended in the sleep that ends a `_main` iteration
                 sess.iterations += 1
-                await asyncio.sleep(0)
+                if sess.yield_in_read:
+                    sess.in_read = True
+                    try:
+                        await sess.gate.wait()  # released by the harness (or cut by _main's 0.1 s timeout)
+                    finally:
+                        sess.in_read = False
                 return _NOP
 
             proto.read_message = read_message  # type: ignore[method-assign]
@@ -313,6 +327,30 @@ class ReloadRig:
         for ss in self.sessions.values():
             for s in ss:
                 self._decode_new(s)
+
+    def park_in_read(self, a: int) -> bool:
+        """Run the loop until the session of `a` is suspended inside read_message — past the loop top of
+        its current `_main` iteration, where a peer waiting for its socket spends its time."""
+        s = self.current(a)
+        if s is None or s.task is None or s.task.done():
+            return False
+        s.gate = asyncio.Event()
+        s.yield_in_read = True
+
+        async def wait() -> None:
+            for _ in range(200000):
+                if s.in_read or s.task.done():
+                    return
+                await asyncio.sleep(0)
+
+        self.loop.run_until_complete(wait())
+        return s.in_read
+
+    def release(self, a: int) -> None:
+        s = self.current(a)
+        if s is not None and s.gate is not None:
+            s.yield_in_read = False
+            s.gate.set()
 
     def spin(self, a: int, iterations: int) -> None:
         """Let the session of `a` run for about that many `_main` iterations."""
